@@ -9,7 +9,7 @@ SPEC = {
              "everything a round deletes, marks or prunes belongs to a group with end + CURRENT duration < now; duration 0 never; an unexpired or lengthened-in-time group stays untouched in the catalogue; "
              "every shard of an expired group is deleted by its owner's round and the group leaves the catalogue once all owners ran. logkeeper_selection: metaclient.GetExpiredShards + DelayDeleteShardGroup "
              "select/mark exactly the expired groups. open_shard: engine.NewShard(...).IsExpired() for an open shard, before and after duration updates. expired_groups_pure: "
-             "bb_alter_scenarios: the real server with retention check-interval 1 s, a point in an ended 1 h group and generated ALTER ... DURATION steps (deadline 14-24 s ahead, already passed, unlimited, far) with real waiting: the point stays while the deadline in force is >= 6 s ahead, is removed within 40 s once a deadline passed. RetentionPolicyInfo.ExpiredShardGroups(t) with an explicit clock at end+duration-1ns/0/+1ns. Non-trivial: the history contains an ALTER that flips a group's expiry and a later round "
+             "bb_alter_scenarios: the real server with retention check-interval 1 s, a point in an ended 1 h group (policy with the default or a 520-week INDEX DURATION, i.e. ended and live group sharing one index group) and generated ALTER ... DURATION steps (deadline 14-24 s ahead, already passed, unlimited, far) with real waiting: the point stays while the deadline in force is >= 6 s ahead, is removed within 40 s once a deadline passed. RetentionPolicyInfo.ExpiredShardGroups(t) with an explicit clock at end+duration-1ns/0/+1ns. Non-trivial: the history contains an ALTER that flips a group's expiry and a later round "
              "(service/logkeeper), a duration update that flips IsExpired (open_shard), a +-1 ns boundary (pure); distinct = hash of the case"),
     "assumptions": [
         "the code reads time.Now() itself: cases are relative to the wall clock, every verdict has a margin of >= 2 minutes; a run that stalls for more than 1 minute is inconclusive",
